@@ -40,6 +40,7 @@ type Block struct {
 	Evid    []Evid
 	Txs     []Tx
 	Gov     [][]Msg // message lists of the proposals x/gov's EndBlocker executed in this block (filled in from the run)
+	Admin   string  // "" or "gov" / "env": the node is restarted before this block with this admin configuration
 	Restart bool // implementation only: restart the node before this block
 	Absent  []int // script mode only: keys to mark absent; votes are then filled in from the tracked sets
 }
@@ -83,6 +84,9 @@ func WriteGenesis(w io.Writer, g Genesis) {
 }
 
 func WriteBlock(w io.Writer, b Block) {
+	if b.Admin != "" {
+		fmt.Fprintf(w, "ADMIN %s\n", b.Admin)
+	}
 	if b.Restart {
 		fmt.Fprintf(w, "RESTART\n")
 	}
@@ -192,6 +196,7 @@ func ReadHistories(rd io.Reader) ([]History, error) {
 	var hs []History
 	var cur *History
 	restart := false
+	pendingAdmin := ""
 	var pendingAbsent []int
 	for {
 		f, err := r.next()
@@ -212,7 +217,12 @@ func ReadHistories(rd io.Reader) ([]History, error) {
 				cur.G.Vals = append(cur.G.Vals, GVal{Op: atoi(g[1]), Key: atoi(g[2]), Tokens: atoi64(g[3])})
 			}
 		case "ADMIN":
-			cur.G.GovAdmin = len(f) > 1 && f[1] == "gov"
+			if len(cur.Blocks) == 0 && pendingAdmin == "" && !restart {
+				cur.G.GovAdmin = len(f) > 1 && f[1] == "gov"
+			}
+			if len(cur.Blocks) > 0 {
+				pendingAdmin = f[1]
+			}
 		case "RESTART":
 			restart = true
 		case "ABSENT":
@@ -220,8 +230,9 @@ func ReadHistories(rd io.Reader) ([]History, error) {
 				pendingAbsent = append(pendingAbsent, atoi(a))
 			}
 		case "BLOCK":
-			b := Block{DtNs: atoi64(f[1]), Restart: restart, Absent: pendingAbsent}
+			b := Block{DtNs: atoi64(f[1]), Restart: restart, Absent: pendingAbsent, Admin: pendingAdmin}
 			restart = false
+			pendingAdmin = ""
 			pendingAbsent = nil
 			nv, nt := atoi(f[2]), atoi(f[3])
 			for i := 0; i < nv; i++ {
